@@ -361,6 +361,12 @@ def exec_pause(case, d):
                 viol.append(v)
         if r.status != 'ok':
             add('paused_run_fails', 'pauses %s: %s %s' % (plan, r.status, r.exc), site=tag)
+            if not any(v['prop'] == 'C04' and v['clause'] == 'paused_run_never_completes' for v in viol):
+                # the uninterrupted run completed; run to completion in segments it does not (C04: exactly-once
+                # and quiescence are statements about any run to completion)
+                viol.append(dict(prop='C04', clause='paused_run_never_completes', site=r.status, t=None, seq=None,
+                                 msg='pauses %s: %s %s at t=%s although the uninterrupted run completes at %s' % (
+                                     plan, r.status, r.exc, r.T, ref.T)))
             continue
         if float(r.T) != float(ref.T):
             add('length_differs', 'pauses %s: ended at %s, uninterrupted %s' % (plan, r.T, ref.T), site=tag)
@@ -475,7 +481,8 @@ def exec_units(case, d):
             arrays=sim.instrument.total_arrays, max_ingest=sim.instrument.max_ingest,
             pipes={n: p['ingest_demand'] for n, p in sim.instrument.pipelines.items()})
     pk, p1 = parsed['k'], parsed['1']
-    close = lambda a, b: abs(a - b) <= 1e-9 * max(1, abs(a), abs(b))      # noqa: E731
+    # all generated quantities are whole multiples of the unit, so every conversion is exact in floating point
+    close = lambda a, b: a == b      # noqa: E731
     for n in p1['obs']:
         e1, d1, r1, dem1 = p1['obs'][n]
         ek, dk, rk, demk = pk['obs'][n]
@@ -517,6 +524,31 @@ def exec_units(case, d):
     out['violations'] = [v for v in out['violations']] + viol
     bound1 = S.serial_bound(sc1)
     out['probes']['init_pairs'] = 1
+    # unit-independent quantities measured on the unit-k trajectory against their *physical* values
+    if rk.status == 'ok':
+        hk = rk.env.hooks
+        svk = S.StepView(sc)
+        for o in sc['obs']:
+            phys = o['data_product_rate'] * o['duration']
+            if abs(hk.ob[o['name']]['dep'] - phys) > 1e-6:
+                out['violations'].append(dict(prop='C16', clause='volume_differs_from_physical', site='', t=None, seq=None,
+                                              msg='%s deposited %s under unit %s; rate x duration in seconds = %s' % (
+                                                  o['name'], hk.ob[o['name']]['dep'], sc['unit'], phys)))
+                break
+        for e in hk.execs:
+            if e['ingest'] or e['machine'] not in sc['machines']:
+                continue
+            on, nd = e['tid'].split('_')[0], int(e['tid'].rsplit('_', 1)[1])
+            node = svk.nodes(on).get(nd)
+            m = sc['machines'][e['machine']]
+            if node is None or node[0] <= 0 or node[0] % (m['flops'] * k) or (node[1] and node[1] % (m['compute_bandwidth'] * k)):
+                continue
+            secs = max(node[0] / m['flops'], (node[1] or 0) / m['compute_bandwidth'])
+            got = (e['task'].aft - e['task'].ast) * k
+            if hk.ob[on]['inj'].get(e['tid']) is None and abs(got - secs) > 1e-6:
+                out['violations'].append(dict(prop='C16', clause='runtime_differs_from_physical', site='', t=None, seq=None,
+                                              msg='%s ran %s s under unit %s; work/speed = %s s' % (e['tid'], got, sc['unit'], secs)))
+                break
     if k <= 7 and bound1 <= 2500:
         r1 = sut.run_scenario(sc1, d)
         out['nevents'] += r1.nevents
